@@ -29,9 +29,19 @@ var (
 	fScratch = flag.String("scratch", "", "scratch directory for file trees")
 	fGenOnly = flag.Bool("genonly", false, "print generated cases, do not run")
 	fGenCase = flag.Bool("gencase", false, "print generated cases as JSON, do not run")
+	fDump    = flag.Bool("dump", false, "debug: print the case, wire logs, invocation log and schedule")
 )
 
 var out *os.File
+
+// dumpLines collects human-readable logs of the last run when -dump is set.
+var dumpLines []string
+
+func dumpf(format string, a ...any) {
+	if *fDump {
+		dumpLines = append(dumpLines, fmt.Sprintf(format, a...))
+	}
+}
 
 func emit(v any) {
 	b, err := json.Marshal(v)
@@ -91,6 +101,24 @@ func TestSim(t *testing.T) {
 			fmt.Println(c.Brief())
 			continue
 		}
+		if *fDump {
+			fmt.Println(c.Brief())
+			for i, o := range c.Ops {
+				fmt.Printf("  op %d: %s\n", i, o)
+			}
+			res := runCase(t, c, true)
+			for _, l := range res.Schedule {
+				fmt.Println("   ", l)
+			}
+			for _, l := range dumpLines {
+				fmt.Println(l)
+			}
+			for _, v := range res.Viol {
+				fmt.Printf("VIOL %s: %s\n", v.Rule, v.Detail)
+			}
+			fmt.Println("trouble:", res.Trouble, "faults:", res.Faults, "probes:", res.Probes)
+			continue
+		}
 		emit(map[string]any{"begin": i, "seed": seed})
 		res := runCase(t, c, *fTrace)
 		res.Run = i
@@ -148,6 +176,9 @@ func finish(x *Ctx) {
 	res.Tape = s.Tape
 	if s.Panic != nil {
 		fns := panicSites(s.Panic.Stack)
+		if strings.HasPrefix(fns[0], "harness:") {
+			x.Trouble("harness panic in goroutine %s: %s @ %s\n%s", s.Panic.G, s.Panic.Value, fns[0], s.Panic.Stack)
+		}
 		x.Violate("panic@"+fns[0], "goroutine %s panicked: %s @ %s", strings.TrimSpace(s.Panic.G), s.Panic.Value, strings.Join(fns, " < "))
 	}
 	if s.Exhausted {
@@ -171,13 +202,36 @@ func finish(x *Ctx) {
 	}
 }
 
-// panicSites extracts the innermost go9p (non-harness) functions from a stack.
+// panicSites extracts the innermost go9p functions from a panic stack; if
+// the innermost non-runtime frame belongs to the harness, the panic is the
+// harness's own and is labelled so.
 func panicSites(stack string) []string {
 	const pfx = "github.com/rminnich/go9p."
+	const hpfx = "github.com/rminnich/go9p/vsim/"
 	var fns []string
-	first := ""
-	for _, ln := range strings.Split(stack, "\n") {
+	lines := strings.Split(stack, "\n")
+	// skip to the frame below the last "panic(" line
+	start := 0
+	for i, ln := range lines {
+		if strings.HasPrefix(ln, "panic(") {
+			start = i + 2
+		}
+	}
+	for _, ln := range lines[start:] {
 		ln = strings.TrimSpace(ln)
+		if strings.HasPrefix(ln, hpfx) {
+			if len(fns) == 0 {
+				fn := ln[len(hpfx):]
+				if i := strings.LastIndexByte(fn, '('); i > 0 {
+					fn = fn[:i]
+				}
+				if strings.HasPrefix(fn, "rt.") {
+					continue
+				}
+				return []string{"harness:" + fn}
+			}
+			continue
+		}
 		if strings.HasPrefix(ln, pfx) {
 			fn := ln[len(pfx):]
 			if i := strings.LastIndexByte(fn, '('); i > 0 {
@@ -187,20 +241,10 @@ func panicSites(stack string) []string {
 			if len(fns) < 4 {
 				fns = append(fns, fn)
 			}
-			continue
-		}
-		if first == "" && len(fns) == 0 && strings.Contains(ln, "/vsim/h.") {
-			first = ln
 		}
 	}
 	if len(fns) > 0 {
 		return fns
-	}
-	if first != "" {
-		if i := strings.LastIndexByte(first, '('); i > 0 {
-			first = first[:i]
-		}
-		return []string{"harness:" + first[strings.LastIndexByte(first, '/')+1:]}
 	}
 	return []string{"unknown"}
 }
